@@ -408,8 +408,9 @@ class EvalMixin:
             if isinstance(a, SStr) and isinstance(b, SStr):
                 return SStr(a.s + b.s)
         if isinstance(op, ast.Mult):
-            if isinstance(a, PyList) and isinstance(b, SV) and b.shape is IntS:
-                return self.list_repeat(a, b)
+            if isinstance(a, PyList) and len(a.items) == 1 and isinstance(b, SV) and b.shape is IntS:
+                from .core import VRepeat
+                return VRepeat(a.items[0], b.e)
         if isinstance(a, SV) and a.shape is ValS or isinstance(b, SV) and b.shape is ValS:
             # arithmetic on opaque values: result opaque, may raise TypeError
             if self.spec:
@@ -667,6 +668,13 @@ class EvalMixin:
                 v = vals.shape.select(vals, key)
                 self.path._assume_wf(v)
                 return v
+        if isinstance(obj, SV) and obj.shape is ValS and getattr(self.world, 'abstract_seqs', False):
+            from .absseq import seq_at, seq_len
+            i = as_arith(self.force(idx))
+            n = seq_len(obj.e)
+            if not self.spec and self.path.decide(z3.Or(i >= n, i < -n)):
+                self.raise_('IndexError', 'list index out of range')
+            return SV(ValS, seq_at(obj.e, z3.If(i < 0, i + n, i)))
         if isinstance(obj, SMap):
             key = coerce(self.path, idx, obj.shape.key)
             v = obj.shape.select(obj, key)
